@@ -4,6 +4,7 @@ mod c02;
 mod c03;
 mod c04;
 mod c39;
+mod c40;
 mod c05h;
 mod c06t;
 mod core;
@@ -23,6 +24,7 @@ fn prop_by_id(id: &str) -> Option<Box<dyn Prop>> {
         "C03" => Some(Box::new(c03::C03)),
         "C04" => Some(Box::new(c04::C04)),
         "C39" => Some(Box::new(c39::C39)),
+        "C40" => Some(Box::new(c40::C40)),
         "C05" => Some(Box::new(c05h::C05H)),
         "C06" => Some(Box::new(c06t::C06T)),
         _ => None,
